@@ -6,11 +6,11 @@ toolchain go1.23.5
 
 require (
 	github.com/contiv/libOpenflow v0.0.0
+	github.com/sirupsen/logrus v1.9.0
 	pgregory.net/rapid v1.3.0
 )
 
 require (
-	github.com/sirupsen/logrus v1.9.0 // indirect
 	golang.org/x/exp v0.0.0-20230420155350-5d9e357047b1 // indirect
 	golang.org/x/sys v0.1.0 // indirect
 )
